@@ -74,9 +74,40 @@ fn find(h: &[u8], n: &[u8]) -> bool {
     !n.is_empty() && h.len() >= n.len() && h.windows(n.len()).any(|w| w == n)
 }
 
+/// Every secret this process has ever read back from any store (the first 16 bytes of its raw form): what one
+/// authenticator hands out must not contain the secret of a passkey held by another one either - in another store,
+/// created on another thread.  Outputs are searched with a 16-byte window, in raw form only.
+fn foreign(creds: &[Passkey], outputs: &[(String, Vec<u8>)]) -> Vec<String> {
+    use std::collections::HashMap;
+    static ALL: std::sync::Mutex<Option<HashMap<[u8; 16], &'static str>>> = std::sync::Mutex::new(None);
+    let mut g = ALL.lock().unwrap();
+    let all = g.get_or_insert_with(Default::default);
+    for p in creds {
+        for (sname, secret) in secrets_of(p) {
+            if secret.len() >= 16 && secret.iter().any(|b| *b != secret[0]) {
+                all.insert(secret[..16].try_into().unwrap(), sname);
+            }
+        }
+    }
+    let mut found = vec![];
+    for (place, h) in outputs {
+        // (Debug renderings are text: a raw secret cannot sit in them, and they are the bulk of the bytes)
+        if place.contains("Debug") || place.contains("debug(") {
+            continue;
+        }
+        for w in h.windows(16) {
+            let k: [u8; 16] = w.try_into().unwrap();
+            if let Some(sname) = all.get(&k) {
+                found.push(format!("{place}:{sname}:raw-of-any-store"));
+            }
+        }
+    }
+    found
+}
+
 /// `outputs`: (where, bytes of a serialisation of something returned to the caller)
 pub fn scan(creds: &[Passkey], outputs: &[(String, Vec<u8>)]) -> Vec<String> {
-    let mut found = vec![];
+    let mut found = foreign(creds, outputs);
     for p in creds {
         for (sname, secret) in secrets_of(p) {
             for (enc, n) in needles(&secret) {
